@@ -140,3 +140,62 @@ def c13e(F, R):
         R.ok("decimal", detail=f"unprefixed literals go through str::parse::<{dec[0]['gargs'][-1]}>")
     else:
         R.bad("decimal", f"expected exactly one decimal `parse` call, found {len(dec)}", f["sp"])
+
+
+@rule("C17", "C17.h.immediate-token-kinds", floor=2)
+@rule("C13", "C13.i.immediate-token-kinds", floor=2)
+def c13i(F, R):
+    """an immediate operand may be a number (symbol token) or a character literal (char token): both token kinds survive the path from the token to the `Imm` - the generic operand classifier `Token::as_type` hands the whole token to `TryFrom<Token>`, and `TryFrom<Token> for Imm` answers for both kinds; a classifier that looks at symbol tokens only makes `li a0, 'A'` an error while `li a0, 65` is fine"""
+    TT = P + "token::TokenType"
+    need = {"Symbol", "Char"}
+    # (a) TryFrom<Token> for Imm
+    tf = [q for q in F.fns if q.endswith("::try_from") and "imm::Imm as core::convert::TryFrom<" in q and "Token" in q]
+    if not tf:
+        raise Anchor("TryFrom<Token> for Imm not found")
+    f = F.fn(tf[0])
+    kinds = set()
+    for m in find_matches(f["hir"]["value"]):
+        for a in m["arms"]:
+            vs = {short(v) for k, v in pat_variants(a["pat"]) if k == "path" and v and "TokenType" in v}
+            is_err = peel(a["body"]).get("k") == "Call" and short(callee_of(peel(a["body"])) or "") == "Err"
+            if vs and not is_err:
+                kinds |= vs
+    if need <= kinds:
+        R.ok("TryFrom<Token> for Imm", detail=f"accepts token kinds {sorted(kinds)}", where=f["sp"])
+    else:
+        R.bad("TryFrom<Token> for Imm", f"TryFrom<Token> for Imm accepts only {sorted(kinds)}; immediates are written as {sorted(need)} tokens", f["sp"])
+    # (b) the operand classifier
+    at = [q for q in F.fns if q.endswith("::as_type") and "Token" in q]
+    if not at:
+        raise Anchor("Token::as_type not found")
+    g = F.fn(at[0])
+    body = g["hir"]["value"]
+    convs = [c for c in walk(body, pats=False) if c.get("k") in ("Call", "MethodCall") and short(callee_of(c) or declared_callee(c) or c.get("name") or "") in ("try_from", "try_into", "from_str", "parse")]
+    if not convs:
+        R.bad("as_type", "UNEXTRACTABLE: Token::as_type performs no conversion", g["sp"])
+        return
+    from .p_parse import parent_map
+    pm = parent_map(body)
+    for c in convs:
+        nm = short(callee_of(c) or declared_callee(c) or c.get("name") or "")
+        guards = set()
+        x = c
+        while id(x) in pm:
+            par = pm[id(x)]
+            if par.get("k") == "If":
+                cnd = par["cond"]
+                while cnd.get("k") in ("DropTemps", "Use"):
+                    cnd = cnd["e"]
+                if cnd.get("k") == "LetExpr" and any(y is x for y in walk(par["then"], pats=False)):
+                    guards |= {short(v) for k_, v in pat_variants(cnd["pat"]) if k_ == "path" and v and "TokenType" in v}
+            if par.get("k") == "Match" and not par.get("src"):
+                for a in par["arms"]:
+                    if any(y is x for y in walk(a["body"], pats=False)):
+                        guards |= {short(v) for k_, v in pat_variants(a["pat"]) if k_ == "path" and v and "TokenType" in v}
+            x = par
+        if nm in ("from_str", "parse"):
+            R.bad("as_type", f"Token::as_type converts the token's text with `{nm}` (under {sorted(guards) or 'no'} token-kind test): whatever `TryFrom<Token>` accepts besides a symbol - a character literal for an immediate - is no longer an operand (`li a0, 'A'` is rejected, `li a0, 65` is not)", loc(c))
+        elif guards and not need <= guards:
+            R.bad("as_type", f"Token::as_type only converts tokens of kind {sorted(guards)}: a character literal is no longer an immediate", loc(c))
+        else:
+            R.ok("as_type", detail="the whole token goes to TryFrom<Token>", where=loc(c))
